@@ -58,6 +58,9 @@ def run(chk, facts_dir, tier):
                       "referenced by the thread spawned in WriterThreadPool::new; BucketSegmentWriter and seglog Writer are not Clone")
     chk.rule("R16.2", "ATOMIC VALIDATE-THEN-WRITE: handle_append_events is synchronous (not a coroutine) and receives from no channel between validation and write")
     chk.rule("R16.3", "SINGLE ROUTING: append_events and Worker::new both obtain the owning thread from bucket_id_to_thread_id")
+    chk.rule("R16.5", "PENDING ENTRIES: the un-synced index entries that validate_event_versions consults (pending_indexes) and the unflushed-event counter are only touched after the "
+                      "transaction's last fallible append: a write that fails half way is rolled back in the file only, so anything recorded earlier would make later validations "
+                      "judge appends against versions that were never written")
     chk.rule("R16.4", "SEQUENCE CACHE: next_partition_sequences is only written by insert in handle_write after the last fallible append; nothing removes entries")
     chk.not_decided += ["the interleaving space itself; the rules decide that validation and write of one bucket can only run on one thread, one request at a time"]
 
@@ -121,4 +124,8 @@ def run(chk, facts_dir, tier):
 
     # R16.4
     check_sequence_cache(chk, prog, "R16.4")
+    # R16.5
+    from . import c02
+    hw = prog.body(WS + "handle_write")
+    c02.late_bookkeeping(chk, prog, hw, Ev(prog, hw), calls(hw, BSW + "append_event"), calls(hw, BSW + "append_commit"), "R16.5")
     return {}
